@@ -450,6 +450,10 @@ def replay(pid, spec, prop):
 
 # ---------------------------------------------------------------- main
 
+MEMO_MARKERS = ("a result is memoised only under an operator/operand key that denotes it",
+                "the operator used as cache key is one that this operation may legitimately memoise under")
+
+
 def tagged(desc):
     m = re.match(r"\s*((?:C\d{2,3})(?:\s*,\s*C\d{2,3})*)\s*:", desc or "")
     if not m:
@@ -567,6 +571,13 @@ def main():
                     inconclusive.append("%s: cover goal unsatisfiable or unreachable (vacuity): %s [%s]" % (r["harness"], p["desc"], p["status"]))
                 continue
             tags = tagged(p["desc"])
+            # A wrong memo entry (value that does not denote the key it is stored under) is a
+            # C06 failure *and* a failure of the property the harness is primarily about: the
+            # operation whose key it is returns the wrong value in every history that looks the
+            # entry up. Kani assumes an asserted condition afterwards, so the harness's own
+            # result assertion can no longer fail on that path.
+            if tags and p["status"] == "FAILURE" and any(m in p["desc"] for m in MEMO_MARKERS) and primary not in tags:
+                tags = tags + [primary]
             relevant = (pid in tags) if tags else (primary == pid)
             if p["class"] == "unwind" and p["status"] == "FAILURE":
                 inconclusive.append("%s: unwinding bound too small at %s (%s)" % (r["harness"], p.get("function"), p["desc"]))
